@@ -134,3 +134,14 @@ Proof.
   revert acc. induction rs as [|[k' r] rs IH]; intros acc; cbn [closed_result filter fst]; [reflexivity|].
   destruct (runner_key_eqb k k') eqn:E; cbn [closed_result]; [rewrite E|]; apply IH.
 Qed.
+
+(* profit at the close: only the order's own line counts, and an order on a line the closing book does not list makes nothing and loses nothing *)
+Lemma profit_at_close_own_line tb rs k s : profit_at_close tb rs k s = profit_at_close tb (filter (fun x => runner_key_eqb k (fst x)) rs) k s.
+Proof. unfold profit_at_close. rewrite <- closed_result_only_own_line. reflexivity. Qed.
+Lemma profit_at_close_unlisted tb rs k s : ~ In k (map fst rs) -> st_line s = false -> 0 < st_dead s -> 0 < st_div_n s -> profit_at_close tb rs k s = 0.
+Proof.
+  intros Hn Hl Hd Hv. unfold profit_at_close. rewrite closed_result_absent by exact Hn.
+  apply unmatched_or_removed_is_zero; [|exact Hd|exact Hv]. right. left. cbn [with_result st_line st_result]. split; [exact Hl|right; reflexivity].
+Qed.
+Lemma profit_at_close_listed tb rs k r s : NoDup (map fst rs) -> In (k, r) rs -> profit_at_close tb rs k s = profit tb (with_result s r).
+Proof. intros Hnd Hin. unfold profit_at_close. rewrite (closed_result_unique rs k r RsNone Hnd Hin). reflexivity. Qed.
